@@ -36,7 +36,7 @@ ELEMENTARY_FAMILIES = {
     'kx': ['two', 'plus', 'minus'], 'ky': ['two', 'plus', 'minus'],
     'kz': ['two', 'plus', 'minus'],
     'sq': ['ellipsoid', 'hyper1', 'hyper2', 'paraboloid', 'cylinder',
-           'poscentre'],
+           'poscentre', 'zero-const'],
     'gq': ['ellipsoid', 'cross', 'generic'],
     'tx': ['circular', 'elliptic', 'spindle'],
     'ty': ['circular', 'elliptic', 'spindle'],
@@ -215,6 +215,20 @@ def elementary(rng, kind, family):
             coef = [a, b, c]
             coef[which] = 0.0
             a, b, c = coef
+        elif family == 'zero-const':
+            # G = 0: cones and paraboloids with an off-origin vertex written
+            # as SQ; the value of the expanded polynomial at the centre is
+            # zero up to rounding
+            cen = [rng.choice([0.1, 0.3, 0.7, 0.2, 0.6, 1.3, 0.4, 2.54, 1.1])
+                   * rng.choice([-1, 1]) for _ in range(3)]
+            g = 0.0
+            if rng.random() < 0.6:
+                a, b, c = 1.0, 1.0, -rng.choice([1.0, 0.5, 2.0])    # cone
+                if rng.random() < 0.5:
+                    a, b, c = -a, -b, -c
+            else:
+                c = 0.0
+                lin = [0.0, 0.0, nz(rng, 0.3, 2)]                  # paraboloid
         elif family == 'poscentre':
             # the polynomial is positive at the centre: negative sense is the
             # outside of the ellipsoid
@@ -628,6 +642,30 @@ def tr_spec(rng, motion, form):
         return M.TrSpec(origin=org, entries=flat, motion=motion)
     if form == 'inline13':
         return M.TrSpec(origin=org, entries=flat + [1], motion=motion)
+    if form == 'inline3-shorthand':
+        # a displacement written with the multiply / interpolate shorthand
+        base = rng.choice([1.0, 2.0, -1.5, 0.5])
+        kind = rng.choice(['m', 'i', 'ilog', 'mixed'])
+        if kind == 'm':
+            fac = rng.choice([2, 0.5, -1])
+            vals = [base, base * fac, base * fac * fac]
+            atoms = [M.fnum(base), f'{fac}m', f'{fac}m']
+        elif kind == 'i':
+            step = rng.choice([1.0, 0.5, -2.0])
+            vals = [base, base + step, base + 2 * step]
+            atoms = [M.fnum(base), rng.choice(['i', '1i', 'I']),
+                     M.fnum(base + 2 * step)]
+        elif kind == 'ilog':
+            vals = [abs(base), 2 * abs(base), 4 * abs(base)]
+            atoms = [M.fnum(abs(base)), rng.choice(['ilog', '1ilog', '1log']),
+                     M.fnum(4 * abs(base))]
+        else:
+            vals = [base, base, 3 * base]
+            atoms = [M.fnum(base), 'r', '3m']
+        spec = M.TrSpec(origin=vals, entries=[],
+                        motion=Motion(vals, np.eye(3)))
+        spec.raw_atoms = atoms
+        return spec
     if form.startswith('inline-'):
         # abbreviated matrices with J placeholders; the completion is unique
         ent = list(flat)
